@@ -5,48 +5,157 @@ import (
 	"flag"
 	"fmt"
 	"os"
+	"strconv"
+	"strings"
 	"time"
 )
 
+// checks maps a property id to its driver; a driver returns the process exit code.
+var checks = map[string]func(rc *runCtx) int{}
+
 func main() {
-	prop := flag.String("prop", "", "property id")
-	tier := flag.String("tier", "quick", "quick|thorough")
+	rc := &runCtx{t0: time.Now()}
+	flag.StringVar(&rc.Prop, "prop", "", "property id")
+	flag.StringVar(&rc.Tier, "tier", "quick", "quick|thorough")
+	flag.StringVar(&rc.Evidence, "evidence", "", "evidence file to write")
+	flag.StringVar(&rc.ReplayDir, "replays", "/verif/replays", "directory for replay files")
+	flag.StringVar(&rc.KnownFile, "known", "/verif/known_findings.json", "known findings file")
+	flag.IntVar(&rc.Workers, "workers", numCPU(), "worker processes")
+	flag.DurationVar(&rc.Budget, "budget", 0, "soft wall-clock budget for exploration")
+	flag.IntVar(&rc.HookCount, "hooks", 0, "number of substitutions made by the instrumenter")
 	flag.BoolVar(&noSleepSets, "nosleep", false, "disable sleep sets")
+	worker := flag.Bool("worker", false, "internal: E1 worker")
+	replay := flag.String("replay", "", "replay file")
+	list := flag.Bool("list", false, "list scenarios")
 	flag.Parse()
-	_ = tier
-	switch *prop {
-	case "trial":
-		trial()
-	default:
-		fmt.Fprintln(os.Stderr, "unknown property", *prop)
+	if s := os.Getenv("VERIF_SEED"); s != "" {
+		rc.Seed, _ = strconv.ParseInt(s, 10, 64)
+	}
+	if rc.Budget == 0 {
+		rc.Budget = 150 * time.Second
+		if rc.Tier == "thorough" {
+			rc.Budget = 40 * time.Minute
+		}
+	}
+	if *replay != "" {
+		os.Exit(replayFile(*replay))
+	}
+	if *worker {
+		workerMain(rc)
+		return
+	}
+	if *list {
+		for i, s := range scenarioGens[rc.Prop](rc.Tier) {
+			fmt.Println(i, s.Name)
+		}
+		return
+	}
+	if rc.Evidence == "" {
+		rc.Evidence = "/verif/evidence/" + rc.Prop + ".json"
+	}
+	fn := checks[rc.Prop]
+	if fn == nil {
+		fmt.Fprintln(os.Stderr, "unknown property", rc.Prop)
 		os.Exit(2)
+	}
+	os.Exit(fn(rc))
+}
+
+// runE1Check is the common driver of the properties decided by schedule exploration.
+func runE1Check(rc *runCtx, assumptions []string, extra func(cov map[string]interface{})) int {
+	scs := scenarioGens[rc.Prop](rc.Tier)
+	sum := runE1(rc, scs)
+	cov := sum.coverage(scs)
+	if extra != nil {
+		extra(cov)
+	}
+	if len(sum.Infra) > 0 {
+		for _, m := range sum.Infra {
+			fmt.Fprintln(os.Stderr, "INFRASTRUCTURE:", m)
+		}
+		cov["infrastructure_errors"] = sum.Infra
+		rc.writeEvidence(cov, assumptions, 0)
+		return 2
+	}
+	exit, known, viol := rc.report(sum.Findings)
+	cov["known_findings_reported"] = known
+	rc.writeEvidence(cov, assumptions, viol)
+	fmt.Printf("%s %s: scenarios=%d executions=%d states=%d transitions=%d distinct_outcomes=%d exhaustive=%v violations=%d known=%d wall=%.1fs\n",
+		rc.Prop, rc.Tier, len(scs), sum.Execs, sum.States, sum.Trans, sum.Outcomes, sum.Exhaustive, viol, known, time.Since(rc.t0).Seconds())
+	if len(sum.Vacuous) > 0 {
+		fmt.Fprintf(os.Stderr, "INFRASTRUCTURE: %d vacuous scenarios (a single outcome where several were expected), e.g. %s\n", len(sum.Vacuous), sum.Vacuous[0])
+		return 2
+	}
+	return exit
+}
+
+var e1Assumptions = []string{
+	"executions are sequentially consistent interleavings of the hooked operations (atomics, mutex/cond operations, Gosched, call/return markers); weaker orderings are covered only through data-race freedom (C14)",
+	"happens-before state caching and sleep sets assume plain (unhooked) accesses are ordered by the hooked ones (data-race freedom, checked by C14 on the same scenarios)",
+	"threads: 2-3, 1-2 calls each; key alphabet of 2-3 keys with forced bucket/tag collisions; tables of 32/64 buckets",
+	"the instrumented scratch copy differs from /repo only by import-path substitution (sync, sync/atomic, time, runtime.Gosched) and redirected makeSeed/hashString/defaultHasher call sites",
+}
+
+func init() {
+	for _, p := range []string{"C03", "C04"} {
+		checks[p] = func(rc *runCtx) int { return runE1Check(rc, e1Assumptions, nil) }
 	}
 }
 
-func trial() {
-	scens := []*MapScen{
-		{Prop: "T", C: CMap, Rel: RelSS, NKeys: 2, Init: []int{1, 0}, Table: TPlain,
-			Threads: [][]MIn{{{Op: MStore, K: 0}}, {{Op: MLoad, K: 0}}}},
-		{Prop: "T", C: CMap, Rel: RelSS, NKeys: 2, Init: []int{1, 0}, Table: TPlain,
-			Threads: [][]MIn{{{Op: MDelete, K: 0}, {Op: MStore, K: 1}}, {{Op: MLoad, K: 1}}}},
-		{Prop: "T", C: CMapOfInt, Rel: RelSS, NKeys: 2, Init: []int{1, 0}, Table: TPlain,
-			Threads: [][]MIn{{{Op: MDelete, K: 0}, {Op: MStore, K: 1}}, {{Op: MLoad, K: 1}}}},
-		{Prop: "T", C: CMap, Rel: RelSD, NKeys: 2, Init: []int{0, 0}, Table: TGrowArmed,
-			Threads: [][]MIn{{{Op: MStore, K: 0}}, {{Op: MStore, K: 1}}}},
-		{Prop: "T", C: CMap, Rel: RelSD, NKeys: 2, Init: []int{1, 0}, Table: TGrowArmed,
-			Threads: [][]MIn{{{Op: MStore, K: 1}}, {{Op: MClear}}}},
-		{Prop: "T", C: CMapOfInt, Rel: RelSD, NKeys: 2, Init: []int{0, 0}, Table: TGrowArmed,
-			Threads: [][]MIn{{{Op: MStore, K: 0}}, {{Op: MStore, K: 1}}}},
-		{Prop: "T", C: CMap, Rel: RelDD, NKeys: 2, Init: []int{1, 0}, Table: TShrinkArmed,
-			Threads: [][]MIn{{{Op: MDelete, K: 0}}, {{Op: MStore, K: 1}}}},
+// replayFile re-executes a recorded violation without the explorer.
+func replayFile(path string) int {
+	b, err := os.ReadFile(path)
+	if err != nil {
+		fmt.Fprintln(os.Stderr, err)
+		return 2
 	}
-	for _, ms := range scens {
-		t0 := time.Now()
-		st := Explore(ms.Scenario(), ExploreOpts{Deadline: time.Now().Add(120 * time.Second)})
-		b, _ := json.Marshal(struct {
-			*ExploreStats
-			SampleSched []string `json:"sample_schedule,omitempty"`
-		}{ExploreStats: st})
-		fmt.Printf("%s\n  %s\n  took %v, outcomes=%d\n", ms.name(), b, time.Since(t0), len(st.Outcomes))
+	var f struct {
+		Property string
+		Replay   map[string]interface{}
 	}
+	if err := json.Unmarshal(b, &f); err != nil {
+		fmt.Fprintln(os.Stderr, err)
+		return 2
+	}
+	switch f.Replay["engine"] {
+	case "E1":
+		prop, _ := f.Replay["property"].(string)
+		tier, _ := f.Replay["tier"].(string)
+		name, _ := f.Replay["scenario"].(string)
+		var choices []uint8
+		switch c := f.Replay["choices"].(type) {
+		case string: // []uint8 is marshalled as base64
+			json.Unmarshal([]byte(strconv.Quote(c)), &choices)
+		case []interface{}:
+			for _, x := range c {
+				choices = append(choices, uint8(x.(float64)))
+			}
+		}
+		for _, sc := range scenarioGens[prop](tier) {
+			if sc.Name == name {
+				kind, detail, res, inst := replayChoices(sc, choices)
+				fmt.Println("scenario:", name)
+				if inst != nil && inst.Describe != nil {
+					fmt.Println("history:\n  " + strings.Join(inst.Describe(), "\n  "))
+				}
+				fmt.Println("schedule:\n  " + strings.Join(scheduleStrings(res), "\n  "))
+				if kind != "" {
+					fmt.Printf("VIOLATION property=%s replay=%s\n  %s: %s\n", prop, path, kind, detail)
+					return 1
+				}
+				fmt.Println("no violation on this schedule")
+				return 0
+			}
+		}
+		fmt.Fprintln(os.Stderr, "scenario not found:", name)
+		return 2
+	default:
+		if fn := replayers[fmt.Sprint(f.Replay["engine"])]; fn != nil {
+			return fn(path, f.Property, f.Replay)
+		}
+	}
+	fmt.Fprintln(os.Stderr, "unknown replay engine")
+	return 2
 }
+
+var replayers = map[string]func(path, prop string, payload map[string]interface{}) int{}
